@@ -387,7 +387,7 @@ def check_case(ctx, case):
 def run_shard(ctx):
     acc = ctx.acc
     rng = ctx.rng("prog")
-    n = 1500 if ctx.quick() else 50000
+    n = 7000 if ctx.quick() else 150000
     for j in range(n):
         if ctx.out_of_time():
             acc.notes.append("time budget reached after %d programs" % j)
